@@ -7,7 +7,11 @@
 //! template-expand / t! with if-equal, templates with 2-4 parameters written in every parameter
 //! order whose parameters are named like existing variables and whose arguments are, or contain,
 //! references to variables named like another parameter of the same template, include, platform
-//! incl. an inactive-platform decoy, deflayer -> deflayermap), singly and in random compositions.
+//! a template whose body expands another template and forwards its own parameters to it, where the inner template
+//! decides conditionals or builds a string with concat on the forwarded parameter (matching and non-matching values),
+//! include, platform incl. an inactive-platform decoy, deflayer -> deflayermap with explicit entries only and with the
+//! wildcard inputs _ / __ / ___ at every place before, between and after the explicit entries), singly and in
+//! random compositions.
 //! Required:
 //! the rewritten text is accepted iff the original is; the parsed artefacts agree (mapped keys, key
 //! outputs, overrides, sequences, virtual-key map, options, Debug rendering of every mapped layer
@@ -24,8 +28,8 @@ use std::collections::BTreeMap;
 pub struct C16Check;
 pub static C16: C16Check = C16Check;
 
-const NK: u64 = 15;
-const KINDS: [&str; NK as usize] = ["alias", "var-action", "var-atom", "var-concat", "var-chain", "var-chain-fwd", "template", "template-if-equal", "template-nested-cond", "template-toplevel-form", "template-multi-param", "template-var-args", "include", "platform", "layermap"];
+const NK: u64 = 17;
+const KINDS: [&str; NK as usize] = ["alias", "var-action", "var-atom", "var-concat", "var-chain", "var-chain-fwd", "template", "template-if-equal", "template-nested-cond", "template-toplevel-form", "template-multi-param", "template-var-args", "template-forward", "include", "platform", "layermap", "layermap-wildcard"];
 
 fn profile() -> Profile {
     // kinds whose run-time behaviour crashes on the unchanged tree (C02's findings) or sleeps are left out
@@ -1014,6 +1018,206 @@ impl Rw {
         true
     }
 
+    /// An action list is produced through TWO templates: the use site expands `outer`, whose body contains an expansion
+    /// of `inner` (defined before it) and forwards outer's own parameters to it; `inner` decides a conditional, or
+    /// builds a string with concat, on the forwarded parameter. Three shapes:
+    ///  guard:          inner is the template of the nested-conditional rewrite (payload zp, guards zq = yes, zr = no,
+    ///                  conditionals nested around and inside the list); outer (zw zx zy, any parameter order) contains
+    ///                  (t! inner $zw $zx $zy), with one of the two guards possibly passed as a literal instead, possibly
+    ///                  inside a conditional of outer's own;
+    ///  payload-cond:   1 or 2 atoms of the list (key, alias / variable reference, number, XX, _) are each produced by
+    ///                  (t! inner $zw) where inner (zk) compares $zk with a sentinel: for the sentinel it yields the
+    ///                  original atom ("matching": outer is called with the sentinel), for anything else it yields $zk
+    ///                  itself ("non-matching": outer is called with the original atom) - if-equal / if-not-equal,
+    ///                  if-in-list / if-not-in-list, either comparand order, either order of the two conditionals, or one
+    ///                  nested in the other;
+    ///  payload-concat: a key / number atom is split in two, outer is called with one half and forwards it to inner,
+    ///                  which glues the halves together with (concat ..) (the other half a literal of inner, or a second
+    ///                  argument written in outer's body).
+    fn template_forward(&mut self, rng: &mut Rng) -> bool {
+        let forms = self.nodes();
+        let mut cands: Vec<(usize, (Vec<usize>, usize))> = vec![];
+        for p in action_sites(&forms) {
+            let Some(n) = sexp::get(&forms, &p) else { continue };
+            if !matches!(n, Node::List(_)) || Self::uses_template(n) {
+                continue;
+            }
+            for i in action_children(n).into_iter().chain(number_children(n)) {
+                cands.push((p[0], (p.clone(), i)));
+            }
+        }
+        let cands = self.focused(cands);
+        if cands.is_empty() {
+            return false;
+        }
+        let (site, ci) = rng.pick(&cands).clone();
+        let Some(Node::List(mut body)) = sexp::get(&forms, &site).cloned() else { return false };
+        let comparable = |n: &Node| matches!(n, Node::Atom(a) if !a.is_empty() && !a.starts_with('"') && a != "reverse-release-order");
+        let splittable = |n: &Node| matches!(n, Node::Atom(a) if is_key_like(a) && a.len() >= 2);
+        let mut shapes: Vec<u8> = vec![0];
+        if comparable(&body[ci]) {
+            shapes.push(1);
+            shapes.push(1);
+        }
+        if splittable(&body[ci]) {
+            shapes.push(2);
+        }
+        let shape = *rng.pick(&shapes);
+        let tin = self.fresh("zt");
+        let tout = self.fresh("zt");
+        let ex = |rng: &mut Rng| atom(if rng.coin() { "t!" } else { "template-expand" });
+        let mut notes: Vec<String> = vec![format!("fwd_shape:{}", ["guard", "payload-cond", "payload-concat"][shape as usize])];
+        let (inner_def, outer_def, call): (Node, Node, Node) = match shape {
+            0 => {
+                let arg = std::mem::replace(&mut body[ci], atom("$zp"));
+                let inner_list = list(Self::conditionalise_list(rng, body, ci));
+                let dtop = 1 + rng.below(2) as u32;
+                let mut icontent = vec![];
+                if rng.coin() {
+                    let g = Self::garbage(rng, 1);
+                    icontent.push(Self::cond(rng, false, g));
+                }
+                icontent.push(if rng.coin() { Self::cond_true_nest(rng, vec![inner_list], dtop) } else { inner_list });
+                let mut idef = vec![atom("deftemplate"), atom(&tin), list(vec![atom("zp"), atom("zq"), atom("zr")])];
+                idef.extend(icontent);
+                // which guards are forwarded
+                let fw = rng.usize(4);
+                let (gq, gr) = match fw {
+                    0 | 1 => (atom("$zx"), atom("$zy")),
+                    2 => (atom("$zx"), atom("no")),
+                    _ => (atom("yes"), atom("$zy")),
+                };
+                notes.push(format!("fwd_guards_forwarded:{}", ["both", "both", "first-only", "second-only"][fw]));
+                let mut inner_call = list(vec![ex(rng), atom(&tin), atom("$zw"), gq, gr]);
+                if rng.chance(1, 3) {
+                    // a conditional of outer's own around the forwarding expansion
+                    inner_call = match rng.usize(3) {
+                        0 => list(vec![atom("if-equal"), atom("$zx"), atom("yes"), inner_call]),
+                        1 => list(vec![atom("if-not-equal"), atom("$zy"), atom("yes"), inner_call]),
+                        _ => list(vec![atom("if-in-list"), atom("$zy"), list(vec![atom("no"), atom("never")]), inner_call]),
+                    };
+                    notes.push("fwd_outer_has_own_conditional".into());
+                }
+                let mut ocontent = vec![];
+                if rng.chance(1, 3) {
+                    ocontent.push(list(vec![atom("if-equal"), atom("$zx"), atom("no"), atom("this-is-not-an-action"), list(vec![ex(rng), atom(&tin), atom("$zw"), atom("$zy"), atom("$zx")])]));
+                }
+                ocontent.push(inner_call);
+                let mut order = vec![0usize, 1, 2];
+                rng.shuffle(&mut order);
+                let pn = ["zw", "zx", "zy"];
+                let pa = [arg, atom("yes"), atom("no")];
+                let mut odef = vec![atom("deftemplate"), atom(&tout), list(order.iter().map(|&i| atom(pn[i])).collect())];
+                odef.extend(ocontent);
+                let mut call = vec![ex(rng), atom(&tout)];
+                call.extend(order.iter().map(|&i| pa[i].clone()));
+                (list(idef), list(odef), list(call))
+            }
+            1 => {
+                // a second atom of the same list, forwarded through the same inner template
+                let others: Vec<usize> = action_children(&Node::List(body.clone())).into_iter().chain(number_children(&Node::List(body.clone()))).filter(|&j| j != ci && comparable(&body[j])).collect();
+                let mut sites = vec![ci];
+                if !others.is_empty() && rng.coin() {
+                    sites.push(*rng.pick(&others));
+                }
+                let text = |n: &Node| if let Node::Atom(a) = n { a.clone() } else { String::new() };
+                let mut matching: Vec<bool> = vec![rng.coin()];
+                if sites.len() == 2 {
+                    let may = !matching[0] || text(&body[sites[0]]) == text(&body[sites[1]]);
+                    matching.push(may && rng.coin());
+                }
+                let hit = sites.iter().zip(&matching).find(|(_, m)| **m).map(|(s, _)| body[*s].clone());
+                let repl: Node = hit.unwrap_or_else(|| list(vec![atom("this-is-not-an-action"), atom("$zk")]));
+                let (s1, s2) = ("zsentinel", "zothersentinel");
+                let two = |rng: &mut Rng, a: Node, b: Node| if rng.coin() { vec![a, b] } else { vec![b, a] };
+                let ck = rng.usize(4);
+                let icontent: Vec<Node> = match ck {
+                    0 => {
+                        let mut c1 = vec![atom("if-equal")];
+                        c1.extend(two(rng, atom("$zk"), atom(s1)));
+                        c1.push(repl.clone());
+                        let mut c2 = vec![atom("if-not-equal")];
+                        c2.extend(two(rng, atom("$zk"), atom(s1)));
+                        c2.push(atom("$zk"));
+                        two(rng, list(c1), list(c2))
+                    }
+                    1 => {
+                        let c1 = list(vec![atom("if-in-list"), atom("$zk"), list(two(rng, atom(s1), atom(s2))), repl.clone()]);
+                        let c2 = list(vec![atom("if-not-in-list"), atom("$zk"), list(two(rng, atom(s1), list(vec![atom(s2)]))), atom("$zk")]);
+                        two(rng, c1, c2)
+                    }
+                    2 => {
+                        let inner = list(vec![atom("if-not-in-list"), atom("$zk"), list(vec![atom(s2)]), atom("$zk")]);
+                        let c1 = list(vec![atom("if-not-equal"), atom("$zk"), atom(s1), inner]);
+                        let c2 = list(vec![atom("if-in-list"), atom("$zk"), list(vec![atom(s1)]), repl.clone()]);
+                        two(rng, c1, c2)
+                    }
+                    _ => {
+                        // the sentinel case first decided by if-equal, everything else falls through two negative tests
+                        let c1 = list(vec![atom("if-equal"), atom(s1), atom("$zk"), list(vec![atom("if-not-equal"), atom("$zk"), atom(s2), repl.clone()])]);
+                        let c2 = list(vec![atom("if-not-in-list"), atom("$zk"), list(vec![atom(s2), atom(s1)]), atom("$zk")]);
+                        two(rng, c1, c2)
+                    }
+                };
+                notes.push(format!("fwd_cond_form:{}", ["equal", "in-list", "nested-negative", "nested-positive"][ck]));
+                let mut idef = vec![atom("deftemplate"), atom(&tin), list(vec![atom("zk")])];
+                idef.extend(icontent);
+                let pn = ["zw", "zx"];
+                let mut args = vec![];
+                for (i, &sidx) in sites.iter().enumerate() {
+                    let old = std::mem::replace(&mut body[sidx], list(vec![ex(rng), atom(&tin), atom(&format!("${}", pn[i]))]));
+                    args.push(if matching[i] { atom(s1) } else { old });
+                    notes.push(format!("fwd_value:{}", if matching[i] { "matching" } else { "non-matching" }));
+                }
+                if sites.len() == 2 {
+                    notes.push(format!("fwd_pair:{}", match (matching[0], matching[1]) {
+                        (true, true) => "both-matching",
+                        (false, false) => "both-non-matching",
+                        _ => "mixed",
+                    }));
+                }
+                let mut order: Vec<usize> = (0..sites.len()).collect();
+                rng.shuffle(&mut order);
+                let odef = vec![atom("deftemplate"), atom(&tout), list(order.iter().map(|&i| atom(pn[i])).collect()), list(body)];
+                let mut call = vec![ex(rng), atom(&tout)];
+                call.extend(order.iter().map(|&i| args[i].clone()));
+                (list(idef), list(odef), list(call))
+            }
+            _ => {
+                let Node::Atom(a) = body[ci].clone() else { return false };
+                let cut = 1 + rng.usize(a.len() - 1);
+                let (x, y) = a.split_at(cut);
+                let q = |s: &str| atom(&format!("\"{s}\""));
+                let form = rng.usize(4);
+                // (inner parameters, inner content, arguments of the inner use inside outer, argument of outer)
+                let (ip, ic, ia, oa): (Vec<Node>, Node, Vec<Node>, Node) = match form {
+                    0 => (vec![atom("zk")], list(vec![atom("concat"), atom("$zk"), q(y)]), vec![atom("$zw")], atom(x)),
+                    1 => (vec![atom("zk")], list(vec![atom("concat"), atom(x), atom("$zk")]), vec![atom("$zw")], atom(y)),
+                    2 => (vec![atom("zk"), atom("zl")], list(vec![atom("concat"), atom("$zk"), atom("$zl")]), vec![atom("$zw"), atom(y)], atom(x)),
+                    _ => (vec![atom("zk"), atom("zl")], list(vec![atom("concat"), atom("$zk"), atom("$zl")]), vec![atom(x), atom("$zw")], atom(y)),
+                };
+                notes.push(format!("fwd_concat_form:{}", ["head-forwarded", "tail-forwarded", "head-forwarded-tail-from-outer", "tail-forwarded-head-from-outer"][form]));
+                let idef = vec![atom("deftemplate"), atom(&tin), list(ip), ic];
+                let mut icall = vec![ex(rng), atom(&tin)];
+                icall.extend(ia);
+                body[ci] = list(icall);
+                let odef = vec![atom("deftemplate"), atom(&tout), list(vec![atom("zw")]), list(body)];
+                (list(idef), list(odef), list(vec![ex(rng), atom(&tout), oa]))
+            }
+        };
+        let Some(slot) = self.node_mut(&site) else { return false };
+        *slot = call;
+        // inner is declared before outer, outer before its use
+        let pos_o = rng.usize(site[0] + 1);
+        let pos_o = self.insert(pos_o, outer_def, rng);
+        let pos_i = rng.usize(pos_o + 1);
+        let pos_i = self.insert(pos_i, inner_def, rng);
+        notes.push(format!("fwd_definitions:{}", if pos_i == pos_o { "adjacent" } else { "apart" }));
+        self.created_def(pos_o + 1);
+        self.notes.extend(notes);
+        true
+    }
+
     /// a whole deflayer / defalias item becomes the body of a template (conditionals inside the item's
     /// list) and is put back by a top-level expansion
     fn template_toplevel(&mut self, rng: &mut Rng) -> bool {
@@ -1092,7 +1296,39 @@ impl Rw {
         true
     }
 
-    fn layermap(&mut self, rng: &mut Rng) -> bool {
+    /// (process-unmapped-keys is yes, block-unmapped-keys is mentioned) as written in defcfg
+    fn unmapped_opts(&self) -> (bool, bool) {
+        let (mut pu, mut bu) = (false, false);
+        for it in &self.items {
+            let f = match &it.node {
+                Node::List(l) if head(&it.node) == Some("platform") && l.len() == 3 => &l[2],
+                n => n,
+            };
+            if let (Some("defcfg"), Node::List(l)) = (head(f), f) {
+                for w in l.windows(2) {
+                    if let (Node::Atom(k), Node::Atom(v)) = (&w[0], &w[1]) {
+                        if k == "process-unmapped-keys" {
+                            pu = v == "yes";
+                        }
+                    }
+                }
+                if contains_atom(f, &|a| a == "block-unmapped-keys") {
+                    bu = true;
+                }
+            }
+        }
+        (pu, bu)
+    }
+
+    /// A deflayer becomes the equivalent deflayermap. `wild` = false: one explicit entry per defsrc key, in defsrc order
+    /// or shuffled. `wild` = true: the wildcard inputs are used as well, each at a uniformly random place among the
+    /// entries (before, between and after the explicit ones):
+    ///   `_ A`    for a (possibly empty) subset of the defsrc keys whose cell is A, every other defsrc key explicit;
+    ///   `__ _`   (non-defsrc keys transparent, which is what a deflayer leaves them) and explicit `K _` entries for
+    ///            1-2 keys K that are not in defsrc, before or after the wildcard;
+    ///   `___ _`  for a subset of the defsrc keys whose cell is `_` plus all keys outside defsrc.
+    /// The last two only when process-unmapped-keys is yes (the wildcards demand it) and block-unmapped-keys is absent.
+    fn layermap(&mut self, rng: &mut Rng, wild: bool) -> bool {
         fn unwrap(n: &Node) -> &Node {
             match n {
                 Node::List(l) if head(n) == Some("platform") && l.len() == 3 => &l[2],
@@ -1122,14 +1358,109 @@ impl Rw {
         let fi = *rng.pick(&cands);
         let wrapped = head(&self.items[fi].node) == Some("platform");
         let Node::List(l) = unwrap(&self.items[fi].node).clone() else { return false };
-        let mut v = vec![atom("deflayermap"), list(vec![l[1].clone()])];
-        let mut order: Vec<usize> = (0..keys.len()).collect();
-        if rng.coin() {
-            rng.shuffle(&mut order);
+        let n = keys.len();
+        let cells: Vec<Node> = l[2..].to_vec();
+        // (input, action, class) - class 0: explicit defsrc key, 1: explicit key outside defsrc, 2: _, 3: __, 4: ___
+        let mut explicit: Vec<(Node, Node, u8)> = vec![];
+        let mut wilds: Vec<(Node, Node, u8)> = vec![];
+        let mut notes: Vec<String> = vec![];
+        let mut covered = vec![false; n];
+        if wild {
+            let (pu, bu) = self.unmapped_opts();
+            let outside_ok = pu && !bu;
+            // 0: _   1: _ and __   2: __   3: ___
+            let modes: Vec<u8> = match (n > 0, outside_ok) {
+                (true, true) => vec![0, 0, 1, 1, 2, 3, 3],
+                (true, false) => vec![0],
+                (false, true) => vec![2, 3],
+                (false, false) => return false,
+            };
+            let mode = *rng.pick(&modes);
+            if mode <= 1 {
+                // the action of `_`: the cell of a random key; it stands for any subset of the keys with that very cell
+                // (3 times in 4 a key whose cell also stands at another key, if there is one)
+                let dup: Vec<usize> = (0..n).filter(|&k| (0..n).any(|j| j != k && cells[j] == cells[k])).collect();
+                let k0 = if !dup.is_empty() && rng.chance(3, 4) { *rng.pick(&dup) } else { rng.usize(n) };
+                let same: Vec<usize> = (0..n).filter(|&k| cells[k] == cells[k0]).collect();
+                let take = match rng.usize(6) {
+                    0 => 0,
+                    1 | 2 => same.len(),
+                    _ => 1 + rng.usize(same.len()),
+                };
+                let mut pickd = same.clone();
+                rng.shuffle(&mut pickd);
+                for &k in pickd.iter().take(take) {
+                    covered[k] = true;
+                }
+                notes.push(format!("lmap_covered_by__:{}", if take == 0 { "none" } else if take == 1 { "one" } else if take == n { "all" } else { "several" }));
+                wilds.push((atom("_"), cells[k0].clone(), 2));
+            }
+            if mode == 3 {
+                let trans: Vec<usize> = (0..n).filter(|&k| cells[k] == atom("_")).collect();
+                let mut pickd = trans.clone();
+                rng.shuffle(&mut pickd);
+                let take = if trans.is_empty() { 0 } else { rng.usize(trans.len() + 1) };
+                for &k in pickd.iter().take(take) {
+                    covered[k] = true;
+                }
+                notes.push(format!("lmap_defsrc_keys_covered_by____:{}", if take == 0 { "none" } else { "some" }));
+                wilds.push((atom("___"), atom("_"), 4));
+            }
+            if mode == 1 || mode == 2 {
+                wilds.push((atom("__"), atom("_"), 3));
+            }
+            if mode >= 1 && rng.chance(2, 3) {
+                // keys outside defsrc, written out as transparent
+                let pool: Vec<&str> = gen::PHYS.iter().copied().chain(["f1", "f5", "f12", "kp1", "ins", "home", "pgup", "del", "min", "eql"]).filter(|k| !keys.contains(&atom(k))).collect();
+                if !pool.is_empty() {
+                    let cnt = 1 + rng.usize(2);
+                    let mut idx: Vec<usize> = (0..pool.len()).collect();
+                    rng.shuffle(&mut idx);
+                    for &i in idx.iter().take(cnt) {
+                        explicit.push((atom(pool[i]), atom("_"), 1));
+                    }
+                }
+            }
+            notes.push(format!("lmap_wildcards:{}", ["_", "_+__", "__", "___"][mode as usize]));
         }
-        for k in order {
-            v.push(keys[k].clone());
-            v.push(l[2 + k].clone());
+        for k in 0..n {
+            if !covered[k] {
+                explicit.push((keys[k].clone(), cells[k].clone(), 0));
+            }
+        }
+        if wild || rng.coin() {
+            rng.shuffle(&mut explicit);
+        }
+        let mut entries = explicit;
+        for w in wilds {
+            let at = rng.usize(entries.len() + 1);
+            entries.insert(at, w);
+        }
+        for (i, e) in entries.iter().enumerate() {
+            if e.2 < 2 {
+                continue;
+            }
+            let name = ["", "", "_", "__", "___"][e.2 as usize];
+            let covers = |c: u8| c < 2 && (e.2 == 4 || (e.2 == 2 && c == 0) || (e.2 == 3 && c == 1));
+            let before = entries[..i].iter().filter(|x| covers(x.2)).count();
+            let after = entries[i + 1..].iter().filter(|x| covers(x.2)).count();
+            notes.push(format!("lmap_place:{name}:{}", match (before, after) {
+                (0, 0) => "no-explicit-entry-of-its-kind",
+                (0, _) => "before-all-explicit",
+                (_, 0) => "after-all-explicit",
+                _ => "between-explicit",
+            }));
+            if after > 0 {
+                notes.push("lmap_explicit_entry_after_wildcard_covering_its_key".into());
+            }
+            if entries[i + 1..].iter().any(|x| x.2 >= 2) {
+                notes.push("lmap_wildcard_before_other_wildcard".into());
+            }
+        }
+        let mut v = vec![atom("deflayermap"), list(vec![l[1].clone()])];
+        for (i, a, _) in entries {
+            v.push(i);
+            v.push(a);
         }
         if wrapped {
             if let Node::List(w) = &mut self.items[fi].node {
@@ -1138,6 +1469,7 @@ impl Rw {
         } else {
             self.items[fi].node = list(v);
         }
+        self.notes.extend(notes);
         true
     }
 
@@ -1170,7 +1502,9 @@ impl Rw {
             "template-var-args" => self.template_multi(rng, true),
             "include" => self.include(rng),
             "platform" => self.platform(rng),
-            "layermap" => self.layermap(rng),
+            "template-forward" => self.template_forward(rng),
+            "layermap" => self.layermap(rng, false),
+            "layermap-wildcard" => self.layermap(rng, true),
             _ => false,
         }
     }
@@ -1425,6 +1759,12 @@ impl Check for C16Check {
                                     if kinds.contains(&"template-var-args") {
                                         out.inc("template_var_args_traces_equal");
                                     }
+                                    if kinds.contains(&"template-forward") {
+                                        out.inc("template_forward_traces_equal");
+                                    }
+                                    if kinds.contains(&"layermap-wildcard") {
+                                        out.inc("layermap_wildcard_traces_equal");
+                                    }
                                     if !sa.trace.is_empty() {
                                         out.inc("nonempty_traces_equal");
                                     }
@@ -1446,14 +1786,16 @@ impl Check for C16Check {
         out
     }
     fn rule(&self) -> String {
-        "case = one grammar-generated configuration (whole action grammar except rpt-any, dynamic macros, on-press/release-delay and chords v2; boundary numbers and deliberately rejected ones included) x up to 3 rewritten variants: one single rewrite, one composition of 2-3 applied to the SAME top-level item (optionally following the definition the previous rewrite created), one free composition of 2-4 (quick) / 2-6 (thorough), drawn from 15 kinds {defalias + @name at an action position of a layer cell or alias value or nested in multi/tap-hold/fork/switch/tap-dance; defvar of a whole action list; defvar of a key atom or timeout number; the same through (concat ..); a chain of 2 or 3 variables (site = $v0, v0 = $v1, [v1 = $v2,] last = the value, with probability 1/4 the value of a key / number written as (concat ..)) standing for a whole action list, a plain list (fork / tap-hold-release-keys / tap-hold-except-keys key list, push-msg sub-list), a key atom, a timeout number, a string (layer name of layer-switch / layer-while-held / layer-toggle / release-layer, virtual-key name of on-press / on-release / on-press-fakekey / on-release-fakekey, push-msg item, unicode character) or the whole value of an existing defvar entry, with every link defined after the variable it names (var-chain: the definitions in one defvar block, one defvar form per link at random places in that relative order, or 2+1 / 1+2; for the value of an existing variable: written into its defvar form directly in front of it); the same chain written in any OTHER definition order (var-chain-fwd: 1 order for length 2, 5 for length 3, so at least one variable's whole value names a variable defined later in the same block or in a later defvar form, possibly in an included file or behind a platform wrapper after composition); deftemplate with the sub-action or number as argument expanded with t!/template-expand; the same guarded by if-equal / if-not-equal with decoy branches; the same with conditionals nested 2-3 deep (if-equal, if-not-equal, if-in-list, if-not-in-list, true and false branches, false branches containing conditionals that would hold) both at the top of the template body and inside the action list; a whole deflayer / defalias item written as a template body with such conditionals inside its list and put back by a top-level expansion; an action list written as a template with 2, 3 or 4 parameters (template-multi-param: the parameters stand for non-overlapping pieces cut out of the list and of the action lists nested in it - sub-actions, keys, alias / variable references, timeout numbers, plain key lists, layer / virtual-key names and other strings -, preferring lists and pieces that already refer to variables; when the list has fewer pieces than parameters the rest are guard parameters passed as 'yes' and compared by if-equal / if-not-equal / if-in-list / if-not-in-list either around the list or in a vanishing conditional among its items; the parameter list is a uniformly random permutation of the order in which the parameters occur in the body, all 2 + 6 + 24 orders; half of the parameters are named like a variable that already exists in the configuration and does not occur in the template body, first choice a variable that one of the ARGUMENTS refers to, so that the expansion is called with $name where name is also a parameter written earlier or later in the parameter list; a parameter standing for an atom also replaces, half of the time, every other atom with the same text in the body); the same where additionally (a piece of) one or more arguments is moved into a new defvar named like ANOTHER parameter of the same template, written before or after it in the parameter list, a guard parameter included (1 in 10: like its own parameter), and the argument becomes / contains $<that parameter name> - whole arguments of every class above and pieces inside list arguments (nested action, key, number, plain list, string), the new variables in one defvar block or separate forms anywhere in the configuration, a quarter of the time with one parameter name extending another one's (zv7, zv7x) (template-var-args); 1-3 consecutive top-level items moved into an included file; items wrapped in (platform (linux) ..) plus an unparsable (platform (win winiov2) ..) decoy; a deflayer rewritten as deflayermap}. The configuration is kept as one flat item list with a file tag per item, so rewrites apply equally inside included files: platform-wrapped items, template definitions and expansions, aliases and variables can be defined in an included file and used in the main file after the include and vice versa. The first 1350 cases are the same for every seed: each kind singly on 30 configurations, then every ordered pair of kinds (225) applied to the same item, once staying on the item and once following the created definition, on 2 configurations each. Compared: accept/reject, mapped keys, key outputs, overrides, sequence trie, virtual-key map, options, layer names, Debug rendering of every mapped layer cell and virtual-key cell of every layer, and the OS trace (tick-exact, redundant releases dropped) + end state on 2 random physically consistent histories with OS repeats and gaps around every configured number. Non-trivial = variant with at least one rewrite applied; distinct = (accept/reject, rewrite kinds, action kinds in the configuration).".into()
+        "case = one grammar-generated configuration (whole action grammar except rpt-any, dynamic macros, on-press/release-delay and chords v2; boundary numbers and deliberately rejected ones included) x up to 3 rewritten variants: one single rewrite, one composition of 2-3 applied to the SAME top-level item (optionally following the definition the previous rewrite created), one free composition of 2-4 (quick) / 2-6 (thorough), drawn from 17 kinds {defalias + @name at an action position of a layer cell or alias value or nested in multi/tap-hold/fork/switch/tap-dance; defvar of a whole action list; defvar of a key atom or timeout number; the same through (concat ..); a chain of 2 or 3 variables (site = $v0, v0 = $v1, [v1 = $v2,] last = the value, with probability 1/4 the value of a key / number written as (concat ..)) standing for a whole action list, a plain list (fork / tap-hold-release-keys / tap-hold-except-keys key list, push-msg sub-list), a key atom, a timeout number, a string (layer name of layer-switch / layer-while-held / layer-toggle / release-layer, virtual-key name of on-press / on-release / on-press-fakekey / on-release-fakekey, push-msg item, unicode character) or the whole value of an existing defvar entry, with every link defined after the variable it names (var-chain: the definitions in one defvar block, one defvar form per link at random places in that relative order, or 2+1 / 1+2; for the value of an existing variable: written into its defvar form directly in front of it); the same chain written in any OTHER definition order (var-chain-fwd: 1 order for length 2, 5 for length 3, so at least one variable's whole value names a variable defined later in the same block or in a later defvar form, possibly in an included file or behind a platform wrapper after composition); deftemplate with the sub-action or number as argument expanded with t!/template-expand; the same guarded by if-equal / if-not-equal with decoy branches; the same with conditionals nested 2-3 deep (if-equal, if-not-equal, if-in-list, if-not-in-list, true and false branches, false branches containing conditionals that would hold) both at the top of the template body and inside the action list; a whole deflayer / defalias item written as a template body with such conditionals inside its list and put back by a top-level expansion; an action list written as a template with 2, 3 or 4 parameters (template-multi-param: the parameters stand for non-overlapping pieces cut out of the list and of the action lists nested in it - sub-actions, keys, alias / variable references, timeout numbers, plain key lists, layer / virtual-key names and other strings -, preferring lists and pieces that already refer to variables; when the list has fewer pieces than parameters the rest are guard parameters passed as 'yes' and compared by if-equal / if-not-equal / if-in-list / if-not-in-list either around the list or in a vanishing conditional among its items; the parameter list is a uniformly random permutation of the order in which the parameters occur in the body, all 2 + 6 + 24 orders; half of the parameters are named like a variable that already exists in the configuration and does not occur in the template body, first choice a variable that one of the ARGUMENTS refers to, so that the expansion is called with $name where name is also a parameter written earlier or later in the parameter list; a parameter standing for an atom also replaces, half of the time, every other atom with the same text in the body); the same where additionally (a piece of) one or more arguments is moved into a new defvar named like ANOTHER parameter of the same template, written before or after it in the parameter list, a guard parameter included (1 in 10: like its own parameter), and the argument becomes / contains $<that parameter name> - whole arguments of every class above and pieces inside list arguments (nested action, key, number, plain list, string), the new variables in one defvar block or separate forms anywhere in the configuration, a quarter of the time with one parameter name extending another one's (zv7, zv7x) (template-var-args); an action list produced through two templates (template-forward): the use site expands an outer template whose body contains an expansion of an inner template, declared before it, and passes outer's own parameters on to it, and the inner template decides on the forwarded parameter - shape 'guard': the inner template is that of the nested-conditional rewrite (guards compared by if-equal / if-not-equal / if-in-list / if-not-in-list nested around and inside the list), outer forwards the payload and both guards or one guard and a literal, in any parameter order, optionally inside a conditional of its own and next to a vanishing conditional that contains another forwarding expansion; shape 'payload-cond': one or two atoms of the list (key, alias or variable reference, number, XX, _) are each produced by (t! inner $param) where inner compares its parameter with a sentinel and yields the original atom for the sentinel (matching value: outer is called with the sentinel) and the parameter itself otherwise (non-matching value: outer is called with the original atom), written with if-equal + if-not-equal, if-in-list + if-not-in-list, or one conditional nested in another, either comparand order and either order of the conditionals, pairs mixed / both non-matching / both matching; shape 'payload-concat': a key or number atom is cut in two, outer is called with one half and forwards it to inner which glues it to the other half with (concat ..), the other half being a literal of inner or a second argument written in outer's body; 1-3 consecutive top-level items moved into an included file; items wrapped in (platform (linux) ..) plus an unparsable (platform (win winiov2) ..) decoy; a deflayer rewritten as deflayermap with one explicit entry per defsrc key in defsrc order or shuffled (layermap); a deflayer rewritten as deflayermap that uses the wildcard inputs (layermap-wildcard): `_ A` standing for none / one / several / all of the defsrc keys whose cell is A (3 times in 4 a cell that occurs at more than one key when there is one) with every other defsrc key explicit, and, only when defcfg has process-unmapped-keys yes and no block-unmapped-keys, also `__ _` (alone or together with `_`), `___ _` standing for a subset of the defsrc keys whose cell is `_` and everything outside defsrc, and 1-2 explicit transparent entries `K _` for keys K outside defsrc; the explicit entries are shuffled and every wildcard entry is inserted at a uniformly random place, so it stands before all, between, and after all explicit entries for keys it would cover}. The configuration is kept as one flat item list with a file tag per item, so rewrites apply equally inside included files: platform-wrapped items, template definitions and expansions, aliases and variables can be defined in an included file and used in the main file after the include and vice versa. The first 1666 cases are the same for every seed: each kind singly on 30 configurations, then every ordered pair of kinds (289) applied to the same item, once staying on the item and once following the created definition, on 2 configurations each. Compared: accept/reject, mapped keys, key outputs, overrides, sequence trie, virtual-key map, options, layer names, Debug rendering of every mapped layer cell and virtual-key cell of every layer, and the OS trace (tick-exact, redundant releases dropped) + end state on 2 random physically consistent histories with OS repeats and gaps around every configured number. Non-trivial = variant with at least one rewrite applied; distinct = (accept/reject, rewrite kinds, action kinds in the configuration).".into()
     }
     fn assumptions(&self) -> Vec<String> {
         vec![
-            "rewrite sites are restricted to places where the guide promises neutrality: aliases and variables only at action positions reachable from deflayer/deflayermap cells and defalias values (not in defvirtualkeys/defchords, not action names, not inside macros or quoted strings); aliases are defined directly before the item that uses them (a value inside a defalias item that refers, directly or through a variable/template, to an alias of the same item is not hoisted); templates are declared before their use and never nested in each other; include is applied to whole top-level items of the main file only (no nested includes), platform wraps exactly one item and is not nested in platform".into(),
+            "rewrite sites are restricted to places where the guide promises neutrality: aliases and variables only at action positions reachable from deflayer/deflayermap cells and defalias values (not in defvirtualkeys/defchords, not action names, not inside macros or quoted strings); aliases are defined directly before the item that uses them (a value inside a defalias item that refers, directly or through a variable/template, to an alias of the same item is not hoisted); templates are declared before their use and, except in the template-forward rewrite, never nested in each other; include is applied to whole top-level items of the main file only (no nested includes), platform wraps exactly one item and is not nested in platform".into(),
             "variables standing for atoms are only used for alphanumeric key names, timeout numbers and (chain rewrites only) the free-form string / name positions listed in rule(); never for action names, never in defcfg / defsrc / deflocalkeys, never inside macros".into(),
             "forward references between variables: the guide says a variable's value 'will be substituted wherever the variable is used', that the label 'can be used in the rest of the configuration', and that 'variables are allowed to refer to previously defined variables'; it does not say that naming a later variable is an error. All defvar forms are collected before anything that uses them is parsed and substitution happens at the use site, so a variable whose WHOLE value is $other is judged transparent in every definition order (var-chain-fwd). Because the guide's sentence literally promises only the backward order, violations that need a forward chain carry their own labels (':var-chain-fwd', 'x>var-chain-fwd', 'composed-with-var-chain-fwd') and never share a signature with the order the guide's example uses (var-chain). (concat ..) is documented to produce its string where it is written, so it only ever appears as the LAST link of a chain, with literal parts, never with a reference to a later variable".into(),
-            "template arguments: the guide says that within the template content the $names of the template variables 'will be substituted with the expression passed into template-expand', that expansion happens 'before any other parsing', that variables of defvar 'are not substituted when used inside of template-expand', and its example 5 passes $a as an argument and gets the text $a inserted; an argument is therefore taken to be inserted exactly as written (all parameters at once, an inserted argument is not looked at again), and a $name inside an argument is afterwards an ordinary reference to the variable of that name - also when a parameter of the same template has that name (the unchanged tree does exactly this). Parameters are never named like a variable that the template BODY refers to (that would be shadowing, which the guide does not define), variable references in arguments only stand where the variable rewrites may put them (action positions outside macros, timeout numbers, plain key lists, name / string positions), arguments of guard parameters are literal atoms because the conditionals compare text, and templates are still never nested in each other".into(),
+            "template arguments: the guide says that within the template content the $names of the template variables 'will be substituted with the expression passed into template-expand', that expansion happens 'before any other parsing', that variables of defvar 'are not substituted when used inside of template-expand', and its example 5 passes $a as an argument and gets the text $a inserted; an argument is therefore taken to be inserted exactly as written (all parameters at once, an inserted argument is not looked at again), and a $name inside an argument is afterwards an ordinary reference to the variable of that name - also when a parameter of the same template has that name (the unchanged tree does exactly this). Parameters are never named like a variable that the template BODY refers to (that would be shadowing, which the guide does not define), variable references in arguments only stand where the variable rewrites may put them (action positions outside macros, timeout numbers, plain key lists, name / string positions), arguments of guard parameters are literal atoms because the conditionals compare text, and the templates of these rewrites are never nested in each other".into(),
+            "a template used inside a template: the guide calls templates 'a simple text substitution', allows template-expand 'within another list' and the parser's own message says 'order of declaration matters'; a template body that expands an EARLIER template is therefore taken to mean the text one gets by substituting outer's arguments first and expanding the inner use afterwards with the substituted values - conditionals and concat of the inner template see the VALUES passed to outer, never outer's parameter names. The inner template is always declared before the outer one, comparands are atoms (the conditionals demand strings), the sentinels never occur in the configuration, concat is only used for alphanumeric key names and numbers".into(),
+            "deflayermap wildcards: the guide says _ / __ / ___ 'map all the keys that are not explicitly mapped in the layer' (defsrc keys / keys outside defsrc / both) and gives them no position, so a wildcard entry is judged to mean the same wherever it stands among the entries, and an explicit entry always wins over it. Equivalence with a deflayer: `_ A` replaces explicit entries with the identical action text A; a deflayer leaves keys outside defsrc transparent, so `__ _`, `___ _` (the latter only covering defsrc keys whose cell is `_`) and explicit `K _` entries for keys outside defsrc are judged neutral - only under process-unmapped-keys yes (the parser demands it for __ / ___, and only then are such keys mapped at all) and without block-unmapped-keys (which turns unmapped keys into no-ops instead)".into(),
             "configurations whose Debug rendering is not a function of the text (two parses of the original differ) are compared on everything except the cell rendering".into(),
             "actions known to crash or sleep at run time on the unchanged tree (rpt-any, dynamic macros, on-press-delay, chords v2 with use-defsrc) are not generated".into(),
         ]
@@ -1566,6 +1908,49 @@ impl Check for C16Check {
             ("applied:include", 300),
             ("applied:platform", 300),
             ("applied:layermap", 300),
+            // template -> template with the decision taken on a forwarded parameter, accepted on both sides (really expanded)
+            ("applied:template-forward", 300),
+            ("accepted_fwd_shape:guard", 500),
+            ("accepted_fwd_shape:payload-cond", 400),
+            ("accepted_fwd_shape:payload-concat", 60),
+            ("accepted_fwd_guards_forwarded:both", 250),
+            ("accepted_fwd_guards_forwarded:first-only", 120),
+            ("accepted_fwd_guards_forwarded:second-only", 120),
+            ("accepted_fwd_outer_has_own_conditional", 150),
+            ("accepted_fwd_value:matching", 200),
+            ("accepted_fwd_value:non-matching", 250),
+            ("accepted_fwd_pair:mixed", 60),
+            ("accepted_fwd_pair:both-non-matching", 15),
+            ("accepted_fwd_cond_form:equal", 100),
+            ("accepted_fwd_cond_form:in-list", 100),
+            ("accepted_fwd_cond_form:nested-negative", 100),
+            ("accepted_fwd_cond_form:nested-positive", 100),
+            ("accepted_fwd_concat_form:head-forwarded", 10),
+            ("accepted_fwd_concat_form:tail-forwarded", 10),
+            ("accepted_fwd_concat_form:head-forwarded-tail-from-outer", 10),
+            ("accepted_fwd_concat_form:tail-forwarded-head-from-outer", 10),
+            ("accepted_fwd_definitions:apart", 500),
+            ("template_forward_traces_equal", 1000),
+            // deflayermap wildcards at every place relative to the explicit entries, accepted on both sides
+            ("applied:layermap-wildcard", 300),
+            ("accepted_lmap_wildcards:_", 1000),
+            ("accepted_lmap_wildcards:_+__", 40),
+            ("accepted_lmap_wildcards:__", 25),
+            ("accepted_lmap_wildcards:___", 40),
+            ("accepted_lmap_place:_:before-all-explicit", 250),
+            ("accepted_lmap_place:_:between-explicit", 500),
+            ("accepted_lmap_place:_:after-all-explicit", 250),
+            ("accepted_lmap_place:__:before-all-explicit", 15),
+            ("accepted_lmap_place:__:after-all-explicit", 15),
+            ("accepted_lmap_place:___:before-all-explicit", 5),
+            ("accepted_lmap_place:___:between-explicit", 30),
+            ("accepted_lmap_place:___:after-all-explicit", 5),
+            ("accepted_lmap_explicit_entry_after_wildcard_covering_its_key", 1000),
+            ("accepted_lmap_wildcard_before_other_wildcard", 40),
+            ("accepted_lmap_covered_by__:none", 150),
+            ("accepted_lmap_covered_by__:one", 500),
+            ("accepted_lmap_covered_by__:several", 10),
+            ("layermap_wildcard_traces_equal", 1000),
         ]
     }
 }
